@@ -513,15 +513,22 @@ def op (st : St) (toks : List String) : St × String :=
           -- durable := documents covered by a COMPLETED flush/close before the victim op:
           -- everything acknowledged except what sat in the mutable memtable of `pre`
           -- (D12) — the property promises them all.
-          -- "all": a segment that deserialises completely (a missing gzip trailer of the LAST
-          -- component is never read by the code: such a segment is loaded whole, with all its data)
+          -- "all": a segment that loads (since ae56580: exactly the segments all of whose component
+          -- files are complete, `loadSeg_ok_iff_complete`); "damaged": a segment whose load fails
+          -- AFTER some component was deserialised into the shared templates — now including a
+          -- last component that lacks only (part of) its gzip trailer (the drain fails after
+          -- everything has been published)
           let intact := (listSegments s'.fs).filter fun g => (loadSeg st.cfg.tpl s'.fs g Shared.empty).1
           let damaged := (listSegments s'.fs).any fun g => partialLoadable st.cfg.tpl s'.fs g
-          let trailerOk := intact.any fun g => !segComplete st.cfg.tpl s'.fs g
+          let lastTrailer := (listSegments s'.fs).any fun g =>
+            !(loadSeg st.cfg.tpl s'.fs g Shared.empty).1 && (comps st.cfg.tpl).all fun k =>
+              match FS.find s'.fs (.seg k g) with
+              | some f => f.cut == .full || (f.cut == .trailer && some k == (comps st.cfg.tpl).getLast?)
+              | none => false
           let st' := { st with s := s', image := true, imgIntact := intact, imgDamaged := damaged,
                                d12 := st.preD12 }
           if post.head? == some (outName o) then
-            if o == .ok then (st', s!"ok image=1 k={k} partial={if damaged then 1 else 0} intact={intact.length} trailer_accepted={if trailerOk then 1 else 0}")
+            if o == .ok then (st', s!"ok image=1 k={k} partial={if damaged then 1 else 0} intact={intact.length} last_trailer_rejected={if lastTrailer then 1 else 0}")
             else (st', s!"SPECFAIL reopen-after-crash failed: {outName o}")
           else if post.head? != some "ok" then (st', s!"SPECFAIL reopen-after-crash impl={post} model={outName o}")
           else (st', s!"DIFF image open model={outName o} impl={post}")
